@@ -134,7 +134,11 @@ def p5_shape_change(prog):
                     once('target-archetype', gmi['ln'], 'the target archetype is not looked up with the modified identifier copy')
             # row threaded through: push gets the popped entity and bytes
             row = pop['ret']
-            if not (S(push['args'][0]) == gmi['ret'] and pathsem.mentions(push['args'][1], lambda t: t == row) and pathsem.mentions(push['args'][2], lambda t: t == row)):
+            # the packed components travel in the value pop returns, or in a buffer the caller handed to pop
+            bufs = [t for a_ in list(pop['args'][2:]) + list(pop['vals'][2:]) for t in pathsem.subterms(a_)
+                    if isinstance(t, tuple) and t[0] == 'call' and t[1].startswith('alloc::vec::Vec') and t[1].rsplit('::', 1)[-1] in ('with_capacity', 'new', 'with_capacity_in')]
+            bytes_ok = pathsem.mentions(push['args'][2], lambda t: t == row) or any(pathsem.mentions(x, lambda t, b_=b_: t == b_) for b_ in bufs for x in (push['args'][2], push['vals'][2]))
+            if not (S(push['args'][0]) == gmi['ret'] and pathsem.mentions(push['args'][1], lambda t: t == row) and bytes_ok):
                 once('row-not-threaded', push['ln'], 'the popped row (identifier and packed components) is not what is pushed into the target archetype')
             ladt = prog.adts.get('entity::allocator::location::Location')
             lnames = [x['name'] for x in ladt['variants'][0]['fields']] if ladt else []
